@@ -324,21 +324,36 @@ class CFG:
             cur = parent_of(cur)
         return None
 
-    def must_pass(self, target: N, through: Iterable[N]) -> bool:
-        """Every entry->target path passes one of `through`."""
+    def must_pass(self, target: N, through: Iterable[N], nonnull: str | None = None) -> bool:
+        """Every entry->target path passes one of `through`.  With `nonnull`
+        = a local name, paths are pruned with a one-bit reaching-definition
+        filter: after `name = None` (until the next assignment to it) the
+        true edge of a test `name` / `name is not None` is infeasible."""
         block = set(through)
-        seen = {self.entry}
-        st = [self.entry]
         if self.entry in block:
             return True
+        start = (self.entry, False)
+        seen = {start}
+        st = [start]
         while st:
-            n = st.pop()
+            n, isnone = st.pop()
             if n is target:
                 return False
+            if nonnull is not None and n.kind == "stmt" and n.node is not None:
+                a = _assigns_name(n.node, nonnull)
+                if a is not None:
+                    isnone = a
             for s in n.succ:
-                if s not in seen and s not in block:
-                    seen.add(s)
-                    st.append(s)
+                if s in block:
+                    continue
+                if nonnull is not None and isnone and s.kind in ("T", "F") and isinstance(s.node, ast.expr):
+                    pol = _null_test(s.node, nonnull)
+                    if pol is not None and ((s.kind == "T") == pol):
+                        continue  # infeasible: the name is None on this path
+                key = (s, isnone)
+                if key not in seen:
+                    seen.add(key)
+                    st.append(key)
         return True
 
     def reaches(self, a: N, b: N, avoid: Iterable[N] = ()) -> bool:
@@ -354,6 +369,31 @@ class CFG:
                     seen.add(s)
                     st.append(s)
         return False
+
+
+def _assigns_name(stmt: ast.AST, name: str) -> bool | None:
+    """None: does not assign `name`; True: assigns the constant None; False: assigns something else."""
+    if isinstance(stmt, ast.Assign) and any(isinstance(t, ast.Name) and t.id == name for t in stmt.targets):
+        return isinstance(stmt.value, ast.Constant) and stmt.value.value is None
+    if isinstance(stmt, ast.AnnAssign) and isinstance(stmt.target, ast.Name) and stmt.target.id == name and stmt.value is not None:
+        return isinstance(stmt.value, ast.Constant) and stmt.value.value is None
+    if isinstance(stmt, (ast.AugAssign,)) and isinstance(stmt.target, ast.Name) and stmt.target.id == name:
+        return False
+    if isinstance(stmt, ast.NamedExpr) and isinstance(stmt.target, ast.Name) and stmt.target.id == name:
+        return False
+    return None
+
+
+def _null_test(test: ast.expr, name: str) -> bool | None:
+    """polarity p such that (test == p) implies `name` is not None; else None."""
+    if isinstance(test, ast.Name) and test.id == name:
+        return True
+    if isinstance(test, ast.Compare) and len(test.ops) == 1 and isinstance(test.left, ast.Name) and test.left.id == name and isinstance(test.comparators[0], ast.Constant) and test.comparators[0].value is None:
+        if isinstance(test.ops[0], ast.IsNot):
+            return True
+        if isinstance(test.ops[0], ast.Is):
+            return False
+    return None
 
 
 def _const_truth(e: ast.expr) -> bool | None:
